@@ -17,9 +17,9 @@ RULE = ("random joint degree distributions over 1..4 topologies (zero components
         "harness builder; non-trivial = >= 2 topologies and >= 3 keys; distinct = SHA-1 of the concrete distribution/matrix/network and names")
 ASSUMPTIONS = ["identities compared at 1e-10", "the inversion clause is asserted only when some joint degree is positive in every topology",
                "network clause uses vertex-transitive motifs (cliques, cycles) where memberships and edge ends are proportional"]
-HEADLINE = ["cases", "excess_checks", "inversion_checks", "inversion_not_applicable", "row_sum_checks", "network_checks", "mean_checks", "names_without_2-clique", "names_2-clique_not_first"]
+HEADLINE = ["cases", "excess_checks", "inversion_checks", "inversion_not_applicable", "row_sum_checks", "network_checks", "mean_checks", "names_without_2-clique", "names_2-clique_not_first", "dict_order_differs_from_names"]
 REQUIRED = {t: {"excess_checks": 100, "inversion_checks": 50, "row_sum_checks": 30, "network_checks": 10, "mean_checks": 100,
-                "names_without_2-clique": 30, "names_2-clique_not_first": 10} for t in ("quick", "thorough")}
+                "names_without_2-clique": 30, "names_2-clique_not_first": 10, "dict_order_differs_from_names": 30} for t in ("quick", "thorough")}
 TOL = 1e-10
 POOL = ["2-clique", "3-clique", "2-clique-blue", "2-clique-red", "a", "b", "tau", "x-y-z", "4-cycle", "diamond-outer"]
 
@@ -115,8 +115,13 @@ def check_excess_and_inverse(res, rng, T, names, P):
     # inversion
     if any(all(x > 0 for x in k) for k in P):
         res.count("inversion_checks")
+        order = list(names)
+        if rng.random() < 0.5:
+            rng.shuffle(order)          # a mapping has no order: the list of names says which column a topology is
+            if order != list(names):
+                res.count("dict_order_differs_from_names")
         inv = sut("JointDegreeFromExcess.get_joint_degree_distribution", gcmpy.JointDegreeFromExcess.get_joint_degree_distribution,
-                  {n: dict(q) for n, q in qd.items()}, list(names))
+                  {n: dict(qd[n]) for n in order}, list(names))
         nz = {k: v for k, v in P.items() if any(k)}
         Z = sum(nz.values())
         want = {k: v / Z for k, v in nz.items()}
@@ -145,7 +150,12 @@ def check_row_sums(res, rng, T, names):
         for k, v in m.items():
             r[k[:T]] += v / Z
         want[n] = dict(r)
-    M = sut("JointExcessJointDegreeMatrices(params)", gcmpy.JointExcessJointDegreeMatrices, {TN.EJKS: mats, TN.EDGE_NAMES: list(names)})
+    order = list(names)
+    if rng.random() < 0.5:
+        rng.shuffle(order)
+        if order != list(names):
+            res.count("dict_order_differs_from_names")
+    M = sut("JointExcessJointDegreeMatrices(params)", gcmpy.JointExcessJointDegreeMatrices, {TN.EJKS: {n: mats[n] for n in order}, TN.EDGE_NAMES: list(names)})
     got = sut("JointExcessFromEjk.get_excess_joint_distributions", gcmpy.JointExcessFromEjk.get_excess_joint_distributions, M)
     res.count("row_sum_checks")
     for n in names:
